@@ -119,7 +119,9 @@ def run_case(case, drv):
                 M = drv.call("cfg.interD", G=g, D=R, symNames=symnames, stateNames=[str(v) for v in scodes.values])
                 if M is not None:
                     res.corr += 1
-                    diff = G.same(G.canon_cnf_names(dec, g["vars"]), G.canon_cnf_names(M, g["vars"]), ("start", "prods"))
+                    base = drv.call("cfg.transform", G=g, kind="cnfBase")
+                    keep = base["vars"] if base is not None else g["vars"]
+                    diff = G.same(G.canon_cnf_names(dec, keep), G.canon_cnf_names(M, keep), ("start", "prods"))
                     if diff:
                         res.corr_break("cfg.intersection", "structure differs from the Bar-Hillel model: %s" % diff,
                                        detail={"impl": dec["prods"][:12], "model": M["prods"][:12]})
